@@ -2,7 +2,7 @@ SPEC = dict(
     id="C08",
     bin="c08",
     coq_dir="C08",
-    coq_targets=["C08/Proofs.vo", "C08/Iter4.vo", "C08/Fits4.vo", "C08/Var14.vo", "C08/Examples.vo"],
+    coq_targets=["C08/Proofs.vo", "C08/Iter4.vo", "C08/Fits4.vo", "C08/Var14.vo", "C08/Reader.vo", "C08/Examples.vo"],
     allowed_axioms=[],
     level_text=("Unbounded Coq theorems (all finite mappings over U+0000..U+10FFFF to 16-bit non-zero glyph ids, all code points) about an "
                 "executable model of write-fonts Cmap::from_mappings (sort, dedup, conflict detection, Format4SegmentComputer with its "
@@ -23,7 +23,13 @@ SPEC = dict(
                 "charmap_mappings_exact in every selection case, fits4_exact / format4_build_total / format4_build_panics_beyond_fits4 / "
                 "format4_build_refuted_beyond_fits4 (fits4 = exactly the mappings on which create_format_4 and compute_length do not panic; beyond it the "
                 "code panics: known finding F-9), and cmap14_answers (Cmap14::map_variant = the encoded default / non-default / absent answer on every "
-                "well-formed selector table; the shards evaluate both the model and this specification on tables built with the write-fonts cmap14 types)."),
+                "well-formed selector table; the shards evaluate both the model and this specification on tables built with the write-fonts cmap14 types and on the "
+                "format-14 subtable of font-test-data's cmap14_font1.ttf, and check wf14b, which wf14b_reflects proves sufficient for wf14). Round 4: "
+                "cmap4_iter_is_lookup (iterator = lookup, each pair once, ascending, on built tables) and the reader on ARBITRARY segment arrays: "
+                "cmap4_reader_total (the u16/usize subtraction panic sites of map_codepoint and Cmap4Iter are unreachable for every table), "
+                "cmap4_map_sound_any (any answer is the format's value of a segment containing c), cmap4_lookup_value / cmap4_lookup_out_of_array "
+                "(offsets outside the glyph array answer None), cmap4_map_sorted_any (complete on sorted arrays), cmap4_iter_asc_any (strictly ascending on every table); "
+                "~450 arbitrary/malformed tables per run are evaluated through the checked model as well."),
     level_note=("Trusted: Coq kernel; the hand-written model coq/C08/Model.v at the level of decoded arrays (its agreement with the Rust code is "
                 "checked by vm_compute on every run, not proved; the byte codec of the compiled table is C04's business and is exercised here only "
                 "through dump_table -> read); the harness generator. Theorems are conditional on from_mappings returning a table: it still panics for BMP mappings whose format-4 "
@@ -34,7 +40,8 @@ SPEC = dict(
               "skrifa/src/charmap.rs: MappingSelection::new (codepoint subtable choice), Charmap::{map,mappings}, CodepointSubtable::{map,map_impl}"],
     not_covered=["a closed-form (segment-independent) description of fits4: fits4 is computed from the segments the segment computer chooses; only the sharp isolated-points limit (8188 fit, 8189 do not) is proved as an instance",
                  "Cmap14Iter / Charmap::variant_mappings and Cmap12Iter with arbitrary limits on malformed tables: model (Cmap12Iter) + correspondence + oracle only",
-                 "reader behaviour on malformed format-4/12 arrays: model + correspondence only (no theorem; the property speaks about built tables)",
+                 "format-12 reader on malformed group arrays (overlap clamp, u32 wrap, limits): model + correspondence only; it has no arithmetic panic sites (wrapping/saturating ops)",
+                 "Cmap14::map_variant on UNSORTED selector tables: core::slice::binary_search_by's probe order is a std implementation detail; only well-formed tables are modelled/generated",
                  "optimality of the segment computer (not required by the property); byte-level layout of the compiled table (C04); Cmap::closure_glyphs; symbol-encoded fonts (PUA remap) are modelled but never produced by from_mappings"],
     assumptions=["Rust integer semantics as in coq/Lib/RustInt.v; Vec::sort on (char, GlyphId) = the unique ascending arrangement (total order, equal elements identical)",
                  "from_mappings hands create_format_12 strictly ascending char codes (proved: canon_asc), so its HashMap/dedup indirection is the identity and is not modelled",
